@@ -61,7 +61,13 @@ import (
 //@ loop 1 invariant 0 <= n && n <= 9 && x == old(x) >> uint64(7*n) && uvSize(old(x)) == n + uvSize(x) [C01,C06,C09]
 //@ end
 
-func verifAssert(cond bool) {}
+// verifAssert marks a proof obligation of a lemma harness; when a harness is executed (replay of a
+// counterexample) a false condition panics.
+func verifAssert(cond bool) {
+	if !cond {
+		panic("verifAssert: condition is false")
+	}
+}
 
 //@ func verifAssert
 //@ requires cond
@@ -1169,3 +1175,64 @@ func lemmaSynonymCodeRoundTrip(synonymID, docID uint32) {
 //@ modifies nothing
 //@ ensures err == nil && names == s.fieldDvNames
 //@ end
+
+// ---- C08 / C11: dictionary access, lazily filled caches guarded by mutexes ----
+
+//@ guarded SegmentBase.fieldFSTs by m
+//@ guarded synonymIndexCache.cache by m
+
+//@ func (*SegmentBase).dictionary returns (rv, err)
+//@ thin
+//@ tags [C08,C11]
+//@ requires sb != nil && muHeld(sb.m) == 0
+//@ ensures muHeld(sb.m) == 0 [C08,C11]
+//@ ensures err != nil ==> rv == nil [C08]
+//@ ensures rv != nil ==> rv.sb == sb [C08]
+//@ end
+
+//@ func (*Dictionary).Contains returns (ok, err)
+//@ thin
+//@ tags [C08]
+//@ requires d != nil
+//@ ensures d.fst == nil ==> !ok && err == nil
+//@ end
+
+//@ func (*Dictionary).Cardinality returns (n)
+//@ tags [C08]
+//@ requires d != nil
+//@ modifies nothing
+//@ ensures d.fst == nil ==> n == 0
+//@ ensures d.fst != nil ==> n == fstLen(d.fst)
+//@ end
+
+//@ func (*synonymIndexCache).loadOrCreate returns (fst, m, err)
+//@ thin
+//@ tags [C11,C12]
+//@ requires sc != nil && muHeld(sc.m) == 0
+//@ ensures muHeld(sc.m) == 0
+//@ end
+
+//@ func (*synonymIndexCache).createAndCacheLOCKED returns (fst, m, err)
+//@ thin
+//@ tags [C11,C12]
+//@ requires sc != nil && muHeld(sc.m) == 2
+//@ ensures muHeld(sc.m) == 2
+//@ end
+
+//@ func (*synonymIndexCache).insertLOCKED
+//@ thin
+//@ tags [C11]
+//@ requires sc != nil && muHeld(sc.m) == 2
+//@ ensures muHeld(sc.m) == 2
+//@ end
+
+// ---- executable twins of spec functions (used when a counterexample is replayed on the real code) ----
+
+func verifSpec_uvSize(v uint64) int {
+	n := 1
+	for v >= 0x80 {
+		v >>= 7
+		n++
+	}
+	return n
+}
